@@ -528,7 +528,55 @@ def rule_resolved_network_answered(ctx: Ctx, rep: Report) -> None:
     rep.floor(rule, 1)
 
 
+def rule_optional_network_forwarded_as_given(ctx: Ctx, rep: Report) -> None:
+    """C06.optional_network_forwarded_as_given: `network=None` means "whatever network the
+    key itself names": a function that takes an optional network and hands
+    the question on to a callee with the same optional parameter hands on
+    the caller's own value -- never its defaulted copy (`net = network or
+    "mainnet"`), which turns "not said" into "mainnet" and refuses every
+    testnet key object the caller did not annotate."""
+    rule = "C06.optional_network_forwarded_as_given"
+    n = 0
+    for q, fi in sorted(ctx.prog.functions.items()):
+        if not q.startswith(("btclib.to_prv_key.", "btclib.to_pub_key.", "btclib.b58.", "btclib.b32.", "btclib.bip32.")) or "network" not in fi.params():
+            continue
+        a = fi.node.args
+        mine = {p_.arg: d for p_, d in zip((a.posonlyargs + a.args)[::-1], a.defaults[::-1])}
+        mine.update({p_.arg: d for p_, d in zip(a.kwonlyargs, a.kw_defaults) if d is not None})
+        if not (isinstance(mine.get("network"), ast.Constant) and mine["network"].value is None):
+            continue
+        for c, tgt in ctx.callees(fi):
+            callee = ctx.prog.functions.get(tgt or "")
+            if callee is None or "network" not in callee.params():
+                continue
+            ca = callee.node.args
+            cdef = {p_.arg: d for p_, d in zip((ca.posonlyargs + ca.args)[::-1], ca.defaults[::-1])}
+            cdef.update({p_.arg: d for p_, d in zip(ca.kwonlyargs, ca.kw_defaults) if d is not None})
+            cann = {p_.arg: p_.annotation for p_ in ca.posonlyargs + ca.args + ca.kwonlyargs}
+            optional = (isinstance(cdef.get("network"), ast.Constant) and cdef["network"].value is None) or (cann.get("network") is not None and "None" in norm(cann["network"]))
+            if not optional:
+                continue
+            names = [p_.arg for p_ in ca.posonlyargs + ca.args]
+            if names and names[0] in ("self", "cls") and isinstance(c.func, ast.Attribute):
+                names = names[1:]
+            arg = None
+            if "network" in names and names.index("network") < len(c.args):
+                arg = c.args[names.index("network")]
+            for k in c.keywords:
+                if k.arg == "network":
+                    arg = k.value
+            if arg is None:
+                continue
+            n += 1
+            ok = isinstance(arg, ast.Name) and arg.id == "network" or (isinstance(arg, ast.Constant))
+            rep.ob(rule, f"{q}->{callee.node.name}", ok, fi.where(c), "the caller's own value" if ok else
+                   f"`{norm(c)[:70]}` hands `{norm(arg)}` on as the network where the caller's `network` (None = the key's own) was asked for")
+    rep.floor(rule, 3)
+
+
 RULES = [
+    ("C06.optional_network_forwarded_as_given", rule_optional_network_forwarded_as_given),
+
     ("C06.network_names_normalised", rule_network_names_normalised),
     ("C06.resolved_network_answered", rule_resolved_network_answered),
 
